@@ -6,16 +6,16 @@ From Coq Require Import Lia.
 (** * induction over statements with list bodies *)
 Section StmtInd.
   Variable P : stmt -> Prop.
-  Hypothesis HRun : forall c, P (SRun c).
-  Hypothesis HSudo : forall c u e, P (SSudo c u e).
-  Hypothesis HRaise : P SRaise.
+  Hypothesis HRun : forall c k f, P (SRun c k f).
+  Hypothesis HSudo : forall c u k f, P (SSudo c u k f).
+  Hypothesis HRaise : forall x, P (SRaise x).
   Hypothesis HBlock : forall b body, Forall P body -> P (SBlock b body).
 
   Fixpoint stmt_ind' (s : stmt) : P s :=
     match s with
-    | SRun c => HRun c
-    | SSudo c u e => HSudo c u e
-    | SRaise => HRaise
+    | SRun c k f => HRun c k f
+    | SSudo c u k f => HSudo c u k f
+    | SRaise x => HRaise x
     | SBlock b body =>
         HBlock b body
                ((fix go (l : list stmt) : Forall P l :=
@@ -26,41 +26,48 @@ Section StmtInd.
     end.
 End StmtInd.
 
-(** the inner loops are [exec_list] / [judge_list] *)
-Lemma exec_block cc b body st :
-  exec cc (SBlock b body) st =
-  let '(st2, out, r) := exec_list cc body (push b st) in
-  (pop b st2, out, match b with BTry => false | _ => r end).
+(** the inner loops are [exec_list_with] / [judge_list] *)
+Lemma exec_block cl cc b body st :
+  exec_with cl cc (SBlock b body) st =
+  let '(st2, out, r) := exec_list_with cl cc body (push b st) in
+  match b with
+  | BTry => (st2, out, None)
+  | _ => (if cleanup_runs (cl b) r then pop b st2 else st2, out, r)
+  end.
 Proof.
-  cbn [exec].
+  cbn [exec_with].
   assert (E : forall l s,
-             (fix go (l : list stmt) (st : cstate) {struct l} : cstate * list call * bool :=
+             (fix go (l : list stmt) (st : cstate) {struct l} : cstate * list call * option xkind :=
                 match l with
-                | [] => (st, [], false)
+                | [] => (st, [], None)
                 | x :: l' =>
-                    let '(st', o, r) := exec cc x st in
-                    if r then (st', o, true)
-                    else let '(st'', o', r') := go l' st' in (st'', o ++ o', r')
-                end) l s = exec_list cc l s).
-  { induction l as [|x l IH]; intros s; [reflexivity|]. cbn [exec_list].
-    destruct (exec cc x s) as [[s' o] r]. destruct r; [reflexivity|]. rewrite IH. reflexivity. }
+                    let '(st', o, r) := exec_with cl cc x st in
+                    match r with
+                    | Some _ => (st', o, r)
+                    | None => let '(st'', o', r') := go l' st' in (st'', o ++ o', r')
+                    end
+                end) l s = exec_list_with cl cc l s).
+  { induction l as [|x l IH]; intros s; [reflexivity|]. cbn [exec_list_with].
+    destruct (exec_with cl cc x s) as [[s' o] r]. destruct r; [reflexivity|]. rewrite IH. reflexivity. }
   rewrite E. reflexivity.
 Qed.
 
 Lemma judge_block cc fs b body obs :
   judge_stmt cc fs (SBlock b body) obs =
   let '(ok, rest, r) := judge_list cc (fs ++ [b]) body obs in
-  (ok, rest, match b with BTry => false | _ => r end).
+  (ok, rest, match b with BTry => None | _ => r end).
 Proof.
   cbn [judge_stmt].
   assert (E : forall l o,
-             (fix go (l : list stmt) (obs : list call) {struct l} : bool * list call * bool :=
+             (fix go (l : list stmt) (obs : list call) {struct l} : bool * list call * option xkind :=
                 match l with
-                | [] => (true, obs, false)
+                | [] => (true, obs, None)
                 | x :: l' =>
                     let '(ok, rest, r) := judge_stmt cc (fs ++ [b]) x obs in
-                    if r then (ok, rest, true)
-                    else let '(ok', rest', r') := go l' rest in (ok && ok', rest', r')
+                    match r with
+                    | Some _ => (ok, rest, r)
+                    | None => let '(ok', rest', r') := go l' rest in (ok && ok', rest', r')
+                    end
                 end) l o = judge_list cc (fs ++ [b]) l o).
   { induction l as [|x l IH]; intros o; [reflexivity|]. cbn [judge_list].
     destruct (judge_stmt cc (fs ++ [b]) x o) as [[ok rest] r]. destruct r; [reflexivity|].
@@ -68,36 +75,54 @@ Proof.
   rewrite E. reflexivity.
 Qed.
 
-(** * stacks are restored, whatever the body did *)
+(** * stacks are restored, however the body was left *)
 Lemma pop_push b st : pop b (push b st) = st.
 Proof.
   destruct st as [p c]. destruct b; cbn [push pop prefixes cwds]; rewrite ?removelast_last; reflexivity.
 Qed.
 
+(** Every statement -- whatever it contains: calls whose options are refused, commands
+    that exit non-zero, raises of ANY kind (Exception subclasses, KeyboardInterrupt,
+    SystemExit, GeneratorExit), caught or not -- leaves both stacks as it found them.
+    This rests on [clause_of b = CFinally] for cd and prefix; see [leaky_clause]. *)
 Theorem stacks_restored cc : forall s st, fst (fst (exec cc s st)) = st.
 Proof.
-  induction s as [c|c u e| |b body IH] using stmt_ind'; intros st; try reflexivity.
+  unfold exec.
+  induction s as [c k f|c u k f|x|b body IH] using stmt_ind'; intros st; try reflexivity.
+  { cbn [exec_with]. destruct (sudo_refuses k); reflexivity. }
   rewrite exec_block.
-  assert (L : forall l s0, Forall (fun s => forall st, fst (fst (exec cc s st)) = st) l ->
-                           fst (fst (exec_list cc l s0)) = s0).
+  assert (L : forall l s0, Forall (fun s => forall st, fst (fst (exec_with clause_of cc s st)) = st) l ->
+                           fst (fst (exec_list_with clause_of cc l s0)) = s0).
   { induction l as [|x l IHl]; intros s0 F; [reflexivity|].
-    inversion F as [|? ? Hx Hl]; subst. cbn [exec_list].
-    specialize (Hx s0). destruct (exec cc x s0) as [[s' o] r]. cbn [fst] in Hx. subst s'.
+    inversion F as [|? ? Hx Hl]; subst. cbn [exec_list_with].
+    specialize (Hx s0). destruct (exec_with clause_of cc x s0) as [[s' o] r]. cbn [fst] in Hx. subst s'.
     destruct r; [reflexivity|].
-    specialize (IHl s0 Hl). destruct (exec_list cc l s0) as [[s'' o'] r']. exact IHl. }
+    specialize (IHl s0 Hl). destruct (exec_list_with clause_of cc l s0) as [[s'' o'] r']. exact IHl. }
   specialize (L body (push b st) IH).
-  destruct (exec_list cc body (push b st)) as [[s2 o] r]. cbn [fst] in *. subst s2.
-  apply pop_push.
+  destruct (exec_list_with clause_of cc body (push b st)) as [[s2 o] r]. cbn [fst] in *. subst s2.
+  destruct b; cbn [clause_of cleanup_runs fst]; try apply pop_push. reflexivity.
 Qed.
 
 Corollary program_restores cc prog st : fst (fst (exec_list cc prog st)) = st.
 Proof.
-  revert st. induction prog as [|x l IH]; intros st; [reflexivity|]. cbn [exec_list].
-  pose proof (stacks_restored cc x st) as Hx.
-  destruct (exec cc x st) as [[s' o] r]. cbn [fst] in Hx. subst s'.
+  unfold exec_list. revert st. induction prog as [|x l IH]; intros st; [reflexivity|].
+  cbn [exec_list_with].
+  pose proof (stacks_restored cc x st) as Hx. unfold exec in Hx.
+  destruct (exec_with clause_of cc x st) as [[s' o] r]. cbn [fst] in Hx. subst s'.
   destruct r; [reflexivity|]. specialize (IH st).
-  destruct (exec_list cc l st) as [[s'' o'] r']. exact IH.
+  destruct (exec_list_with clause_of cc l st) as [[s'' o'] r']. exact IH.
 Qed.
+
+(** The theorem above is about the clause the code uses: were the clean-up written
+    [except Exception: pop; raise / else: pop], a KeyboardInterrupt (SystemExit,
+    GeneratorExit) would leave the block on the stack -- while an Exception would not. *)
+Theorem leaky_clause cc :
+  let cl := fun _ : block => CExceptException in
+  fst (fst (exec_with cl cc (SBlock (BPrefix "p") [SRaise XKbd]) c0)) = mkC ["p"%string] [] /\
+  fst (fst (exec_with cl cc (SBlock (BCd "d") [SRaise XSysExit]) c0)) = mkC [] ["d"%string] /\
+  fst (fst (exec_with cl cc (SBlock (BCd "d") [SRaise XGenExit]) c0)) = mkC [] ["d"%string] /\
+  fst (fst (exec_with cl cc (SBlock (BPrefix "p") [SRaise XBoom]) c0)) = c0.
+Proof. repeat split; reflexivity. Qed.
 
 (** * the directory rule *)
 Lemma from_last_abs_none l : existsb is_abs l = false -> from_last_abs l = l.
@@ -138,103 +163,96 @@ Proof.
 Qed.
 
 (** * calls *)
-Lemma rejected_only_env c e : rejected c (only_env e) = rejected c no_kw.
-Proof. reflexivity. Qed.
-
-Lemma call_run cc fs cmd :
-  cfg_sane cc = true ->
-  start_ok (cc_run cc) (cc_parent cc) (composed fs cmd) no_kw (do_run cc (state_of fs) cmd) = true.
-Proof.
-  unfold cfg_sane. intros S. unfold do_run. rewrite prefix_composed.
-  apply (started_ok (cc_run cc) (cc_parent cc) (composed fs cmd) no_kw).
-  destruct (rejected (cc_run cc) no_kw); [discriminate | reflexivity].
-Qed.
-
 (** the effective env of [_sudo] is the env option as the runner resolves it *)
-Lemma sudo_env_want cc e :
-  match e with Some ONone | None => cfg_run (cc_run cc) Env | Some x => x end
-  = want (cc_run cc) (only_env e) Env.
+Lemma sudo_env_want c k :
+  match kw k Env with Some ONone | None => cfg_run c Env | Some x => x end = want c k Env.
 Proof.
-  unfold want, given, only_env, cfg_run. cbn [kw].
-  destruct e as [[| | | | | |]|]; reflexivity.
+  unfold want, given, cfg_run. destruct (kw k Env) as [[| | | | | |]|]; reflexivity.
 Qed.
 
-Lemma sudo_string cc u e prefixed :
+Lemma sudo_string cc u k prefixed :
   sudo_command (cc_prompt cc) (match u with Some x => x | None => cc_user cc end)
-               (match e with Some ONone | None => cfg_run (cc_run cc) Env | Some x => x end)
+               (match kw k Env with Some ONone | None => cfg_run (cc_run cc) Env | Some x => x end)
                prefixed
-  = sudo_wrapped cc u e prefixed.
+  = sudo_wrapped cc u k prefixed.
 Proof.
   rewrite sudo_env_want. unfold sudo_command, sudo_wrapped, env_flags, user_flags.
   f_equal. f_equal.
-  destruct (want (cc_run cc) (only_env e) Env) as [| | | | [|x d] | |]; reflexivity.
+  destruct (want (cc_run cc) k Env) as [| | | | [|x d] | |]; reflexivity.
 Qed.
 
-Lemma call_sudo cc fs cmd u e :
-  cfg_sane cc = true ->
-  start_ok (cc_run cc) (cc_parent cc) (sudo_wrapped cc u e (composed fs cmd)) (only_env e)
-           (do_sudo cc (state_of fs) cmd u e) = true.
+(** * the model's calls are the composed ones, its exceptions the expected ones *)
+Lemma guard_block b body : sudo_watchers_ok (SBlock b body) = forallb sudo_watchers_ok body.
 Proof.
-  unfold cfg_sane. intros S. unfold do_sudo. rewrite prefix_composed, (sudo_string cc u e _).
-  apply (started_ok (cc_run cc) (cc_parent cc) _ (only_env e)).
-  rewrite rejected_only_env. destruct (rejected (cc_run cc) no_kw); [discriminate | reflexivity].
+  cbn [sudo_watchers_ok]. induction body as [|x l IH]; [reflexivity|]. cbn [forallb]. rewrite IH. reflexivity.
 Qed.
 
-(** * the model's calls are the composed ones *)
-Lemma exec_judge cc (S : cfg_sane cc = true) : forall s fs tail,
+Lemma exec_judge cc : forall s fs tail,
+  sudo_watchers_ok s = true ->
   judge_stmt cc fs s (snd (fst (exec cc s (state_of fs))) ++ tail)
   = (true, tail, snd (exec cc s (state_of fs))).
 Proof.
-  induction s as [c|c u e| |b body IH] using stmt_ind'; intros fs tail.
-  - cbn [exec judge_stmt fst snd app]. rewrite call_run by assumption. reflexivity.
-  - cbn [exec judge_stmt fst snd app]. rewrite call_sudo by assumption. reflexivity.
+  unfold exec.
+  induction s as [c k f|c u k f|x|b body IH] using stmt_ind'; intros fs tail G.
+  - cbn [exec_with judge_stmt fst snd app]. unfold do_run, run_raises.
+    rewrite prefix_composed, call_ok_model, run_raises_spec. reflexivity.
+  - cbn [exec_with judge_stmt fst snd app]. unfold sudo_refuses. cbn [sudo_watchers_ok] in G.
+    assert (E : match kw k Watchers with Some ONone => true | _ => false end = false)
+      by (destruct (kw k Watchers) as [[]|]; try reflexivity; discriminate).
+    rewrite E. cbn [fst snd app]. unfold do_sudo, run_raises.
+    rewrite prefix_composed, sudo_string, call_ok_model, run_raises_spec. reflexivity.
   - reflexivity.
-  - rewrite exec_block, judge_block, push_state.
+  - rewrite guard_block in G. rewrite exec_block, judge_block, push_state.
     assert (L : forall l fs0 tail0,
-               Forall (fun s => forall fs tail,
-                         judge_stmt cc fs s (snd (fst (exec cc s (state_of fs))) ++ tail)
-                         = (true, tail, snd (exec cc s (state_of fs)))) l ->
-               judge_list cc fs0 l (snd (fst (exec_list cc l (state_of fs0))) ++ tail0)
-               = (true, tail0, snd (exec_list cc l (state_of fs0)))).
-    { induction l as [|x l IHl]; intros fs0 tail0 F; [reflexivity|].
-      inversion F as [|? ? Hx Hl]; subst.
-      cbn [exec_list judge_list].
-      pose proof (stacks_restored cc x (state_of fs0)) as R.
+               Forall (fun s => forall fs tail, sudo_watchers_ok s = true ->
+                         judge_stmt cc fs s (snd (fst (exec_with clause_of cc s (state_of fs))) ++ tail)
+                         = (true, tail, snd (exec_with clause_of cc s (state_of fs)))) l ->
+               forallb sudo_watchers_ok l = true ->
+               judge_list cc fs0 l (snd (fst (exec_list_with clause_of cc l (state_of fs0))) ++ tail0)
+               = (true, tail0, snd (exec_list_with clause_of cc l (state_of fs0)))).
+    { induction l as [|x l IHl]; intros fs0 tail0 F GL; [reflexivity|].
+      inversion F as [|? ? Hx Hl]; subst. cbn [forallb] in GL. apply andb_true_iff in GL as [Gx GL].
+      cbn [exec_list_with judge_list].
+      pose proof (stacks_restored cc x (state_of fs0)) as R. unfold exec in R.
       specialize (Hx fs0).
-      destruct (exec cc x (state_of fs0)) as [[s' o] r]. cbn [fst snd] in R, Hx. subst s'.
-      destruct r.
-      - cbn [fst snd]. rewrite (Hx tail0). reflexivity.
-      - specialize (IHl fs0 tail0 Hl).
-        destruct (exec_list cc l (state_of fs0)) as [[s'' o'] r']. cbn [fst snd] in *.
-        rewrite <- app_assoc, (Hx (o' ++ tail0)), IHl. reflexivity. }
-    specialize (L body (fs ++ [b]) tail IH).
-    destruct (exec_list cc body (state_of (fs ++ [b]))) as [[s2 o] r]. cbn [fst snd] in *.
-    rewrite L. reflexivity.
+      destruct (exec_with clause_of cc x (state_of fs0)) as [[s' o] r]. cbn [fst snd] in R, Hx. subst s'.
+      destruct r as [xk|].
+      - cbn [fst snd]. rewrite (Hx tail0 Gx). reflexivity.
+      - specialize (IHl fs0 tail0 Hl GL).
+        destruct (exec_list_with clause_of cc l (state_of fs0)) as [[s'' o'] r']. cbn [fst snd] in *.
+        rewrite <- app_assoc, (Hx (o' ++ tail0) Gx), IHl. reflexivity. }
+    specialize (L body (fs ++ [b]) tail IH G).
+    destruct (exec_list_with clause_of cc body (state_of (fs ++ [b]))) as [[s2 o] r]. cbn [fst snd] in L.
+    destruct b; cbn [fst snd]; rewrite L; reflexivity.
 Qed.
 
+Lemma oxkind_eqb_refl r : oxkind_eqb r r = true.
+Proof. destruct r as [[]|]; reflexivity. Qed.
+
 Theorem program_meets_spec cc prog :
-  cfg_sane cc = true ->
+  guard_prog prog = true ->
   spec_ok_ctx cc prog (snd (fst (run_program cc prog))) (fst (fst (run_program cc prog)))
               (snd (run_program cc prog)) = true.
 Proof.
-  unfold run_program, spec_ok_ctx. intros S.
-  pose proof (program_restores cc prog c0) as R.
-  assert (L : forall l tail,
-             judge_list cc [] l (snd (fst (exec_list cc l c0)) ++ tail)
-             = (true, tail, snd (exec_list cc l c0))).
-  { induction l as [|x l IHl]; intros tail; [reflexivity|].
-    cbn [exec_list judge_list].
+  unfold run_program, spec_ok_ctx, guard_prog. intros G.
+  pose proof (program_restores cc prog c0) as R. unfold exec_list in *.
+  assert (L : forall l tail, forallb sudo_watchers_ok l = true ->
+             judge_list cc [] l (snd (fst (exec_list_with clause_of cc l c0)) ++ tail)
+             = (true, tail, snd (exec_list_with clause_of cc l c0))).
+  { induction l as [|x l IHl]; intros tail GL; [reflexivity|].
+    cbn [forallb] in GL. apply andb_true_iff in GL as [Gx GL].
+    cbn [exec_list_with judge_list].
     pose proof (stacks_restored cc x c0) as Rx.
-    pose proof (exec_judge cc S x []) as Hx. change (state_of []) with c0 in Hx.
-    destruct (exec cc x c0) as [[s' o] r]. cbn [fst snd] in Rx, Hx. subst s'.
-    destruct r.
-    - cbn [fst snd]. rewrite (Hx tail). reflexivity.
-    - specialize (IHl tail).
-      destruct (exec_list cc l c0) as [[s'' o'] r']. cbn [fst snd] in *.
-      rewrite <- app_assoc, (Hx (o' ++ tail)), IHl. reflexivity. }
-  specialize (L prog []). rewrite app_nil_r in L.
-  destruct (exec_list cc prog c0) as [[st calls] r]. cbn [fst snd] in *. subst st.
-  rewrite L. rewrite eqb_reflx. reflexivity.
+    pose proof (exec_judge cc x []) as Hx. change (state_of []) with c0 in Hx. unfold exec in Rx, Hx.
+    destruct (exec_with clause_of cc x c0) as [[s' o] r]. cbn [fst snd] in Rx, Hx. subst s'.
+    destruct r as [xk|].
+    - cbn [fst snd]. rewrite (Hx tail Gx). reflexivity.
+    - specialize (IHl tail GL).
+      destruct (exec_list_with clause_of cc l c0) as [[s'' o'] r']. cbn [fst snd] in *.
+      rewrite <- app_assoc, (Hx (o' ++ tail) Gx), IHl. reflexivity. }
+  specialize (L prog [] G). rewrite app_nil_r in L.
+  destruct (exec_list_with clause_of cc prog c0) as [[st calls] r]. cbn [fst snd] in *. subst st.
+  rewrite L, oxkind_eqb_refl. reflexivity.
 Qed.
 
 (** * a call below an arbitrary nesting of blocks *)
@@ -248,44 +266,42 @@ Lemma nest_calls cc : forall fs fs0 body,
   snd (fst (exec_list cc (nest fs body) (state_of fs0)))
   = snd (fst (exec_list cc body (state_of (fs0 ++ fs)))).
 Proof.
+  unfold exec_list.
   induction fs as [|b fs IH]; intros fs0 body; cbn [nest].
   - rewrite app_nil_r. reflexivity.
-  - cbn [exec_list]. rewrite exec_block, push_state.
+  - cbn [exec_list_with]. rewrite exec_block, push_state.
     specialize (IH (fs0 ++ [b]) body). rewrite <- app_assoc in IH. cbn [app] in IH.
-    destruct (exec_list cc (nest fs body) (state_of (fs0 ++ [b]))) as [[s2 o] r].
+    destruct (exec_list_with clause_of cc (nest fs body) (state_of (fs0 ++ [b]))) as [[s2 o] r].
     cbn [fst snd] in *. subst o.
-    destruct (match b with BTry => false | _ => r end); cbn [fst snd]; rewrite ?app_nil_r; reflexivity.
+    destruct b; [destruct r| destruct r|]; cbn [fst snd]; rewrite ?app_nil_r; reflexivity.
 Qed.
 
-Theorem command_composition cc fs cmd :
-  cfg_sane cc = true -> truthy (want (cc_run cc) no_kw Dry) = false ->
-  snd (fst (run_program cc (nest fs [SRun cmd])))
-  = [Some (composed fs cmd, want (cc_run cc) no_kw Shell,
-           generate_env (want (cc_run cc) no_kw Env) (want (cc_run cc) no_kw ReplaceEnv)
-                        (cc_parent cc))].
+Theorem command_composition cc fs cmd k :
+  rejected (cc_run cc) k = None -> truthy (want (cc_run cc) k Dry) = false ->
+  snd (fst (run_program cc (nest fs [SRun cmd k false])))
+  = [Some (composed fs cmd, want (cc_run cc) k Shell,
+           generate_env (want (cc_run cc) k Env) (want (cc_run cc) k ReplaceEnv) (cc_parent cc))].
 Proof.
-  unfold cfg_sane. intros S D. unfold run_program. change c0 with (state_of []).
-  rewrite nest_calls. cbn [app exec_list exec fst snd]. unfold do_run.
+  intros S D. unfold run_program. change c0 with (state_of []).
+  rewrite nest_calls. unfold exec_list. cbn [app exec_list_with exec_with fst snd]. unfold do_run.
   rewrite prefix_composed.
-  change no_kwargs with no_kw.
-  rewrite started_value; [reflexivity | | exact D].
-  destruct (rejected (cc_run cc) no_kw); [discriminate | reflexivity].
+  destruct (run_raises _ false); cbn [fst snd]; rewrite ?app_nil_r;
+    rewrite started_value by assumption; reflexivity.
 Qed.
 
-Theorem sudo_wraps_prefixed cc fs cmd u e :
-  cfg_sane cc = true ->
-  truthy (want (cc_run cc) (only_env e) Dry) = false ->
-  snd (fst (run_program cc (nest fs [SSudo cmd u e])))
-  = [Some (sudo_wrapped cc u e (composed fs cmd), want (cc_run cc) (only_env e) Shell,
-           generate_env (want (cc_run cc) (only_env e) Env)
-                        (want (cc_run cc) (only_env e) ReplaceEnv) (cc_parent cc))].
+Theorem sudo_wraps_prefixed cc fs cmd u k :
+  sudo_refuses k = false ->
+  rejected (cc_run cc) k = None -> truthy (want (cc_run cc) k Dry) = false ->
+  snd (fst (run_program cc (nest fs [SSudo cmd u k false])))
+  = [Some (sudo_wrapped cc u k (composed fs cmd), want (cc_run cc) k Shell,
+           generate_env (want (cc_run cc) k Env) (want (cc_run cc) k ReplaceEnv) (cc_parent cc))].
 Proof.
-  unfold cfg_sane. intros S D. unfold run_program. change c0 with (state_of []).
-  rewrite nest_calls. cbn [app exec_list exec fst snd]. unfold do_sudo.
-  rewrite prefix_composed, (sudo_string cc u e _).
-  change (env_kwargs e) with (only_env e).
-  rewrite started_value; [reflexivity | | exact D].
-  rewrite rejected_only_env. destruct (rejected (cc_run cc) no_kw); [discriminate | reflexivity].
+  intros W S D. unfold run_program. change c0 with (state_of []).
+  rewrite nest_calls. unfold exec_list. cbn [app exec_list_with exec_with fst snd]. rewrite W.
+  cbn [fst snd]. unfold do_sudo.
+  rewrite prefix_composed, sudo_string.
+  destruct (run_raises _ false); cbn [fst snd]; rewrite ?app_nil_r;
+    rewrite started_value by assumption; reflexivity.
 Qed.
 
 (** * Historical: before fix c2a3b37 [_sudo] consulted the env KEYWORD only (F-C15) *)
@@ -297,15 +313,30 @@ Definition cfg_env_A : config :=
   mkCfg (fun o => match o with Env => Some (ODict [("A", "x")]) | _ => None end) ONone.
 
 Theorem sudo_before_fix_refuted :
-  exists cc u e prefixed,
-    cfg_sane cc = true /\
+  exists cc u k prefixed,
     (* A reaches the child ... *)
-    want (cc_run cc) (only_env e) Env = ODict [("A", "x")] /\
+    want (cc_run cc) k Env = ODict [("A", "x")] /\
     (* ... but was not preserved *)
-    sudo_command_before_fix (cc_prompt cc) (match u with Some x => x | None => cc_user cc end) e prefixed
+    sudo_command_before_fix (cc_prompt cc) (match u with Some x => x | None => cc_user cc end)
+                            (kw k Env) prefixed
     = "sudo -S -p 'P:' whoami"%string /\
-    sudo_wrapped cc u e prefixed = "sudo -S -p 'P:' --preserve-env='A' whoami"%string.
+    sudo_wrapped cc u k prefixed = "sudo -S -p 'P:' --preserve-env='A' whoami"%string.
 Proof.
-  exists (mkCC cfg_env_A "P:" ONone []), None, None, "whoami"%string.
+  exists (mkCC cfg_env_A "P:" ONone []), None, no_kw, "whoami"%string.
+  vm_compute. repeat split; reflexivity.
+Qed.
+
+(** * F-C15b: sudo(watchers=None) *)
+Theorem sudo_watchers_none_refuted :
+  exists cc prog,
+    (* run accepts watchers=None as "not given" ... *)
+    snd (run_program cc [SRun "ls" (mkKw (fun o => match o with Watchers => Some ONone | _ => None end) None []) false]) = None /\
+    (* ... sudo raises TypeError and starts nothing *)
+    run_program cc prog = (c0, [None], Some XType) /\
+    spec_ok_ctx cc prog (snd (fst (run_program cc prog))) (fst (fst (run_program cc prog)))
+                (snd (run_program cc prog)) = false.
+Proof.
+  exists (mkCC (mkCfg (fun _ => None) ONone) "P:" ONone []),
+         [SSudo "whoami" None (mkKw (fun o => match o with Watchers => Some ONone | _ => None end) None []) false].
   vm_compute. repeat split; reflexivity.
 Qed.
